@@ -221,6 +221,8 @@ func (db *DB) loadSchema(of Object) (s *Schema, err error) {
 		}
 
 		db.schemas[stype(of)] = s
+		// pending writes must be flushed even if this is the only access to the schema
+		db.startAsyncWritesRoutine(s)
 		return
 	}
 
@@ -240,7 +242,8 @@ func (db *DB) startAsyncWritesRoutine(s *Schema) {
 						// enter critical section
 						db.Lock()
 						// checking db.ctx not to race with db.Close function
-						if db.ctx.Err() == nil {
+						// nothing is touched on disk if nothing is pending
+						if db.ctx.Err() == nil && n > 0 {
 							if err := db.flushAllAndCommit(s.object); err != nil {
 								panic(err)
 							}
@@ -565,6 +568,7 @@ func (db *DB) Create(o Object, s Schema) (err error) {
 		}
 
 		db.schemas[stype(o)] = &s
+		db.startAsyncWritesRoutine(&s)
 
 	default:
 		return
